@@ -681,6 +681,63 @@ where
     }
 }
 
+#[cfg(feature = "rubato_verif")]
+impl<T> FftFixedIn<T> {
+    /// Verification hook: private control state, read-only.
+    pub fn verif_state(&self) -> crate::VerifState {
+        crate::VerifState {
+            last_index: 0.0,
+            resample_ratio: self.fft_size_out as f64 / self.fft_size_in as f64,
+            target_ratio: self.fft_size_out as f64 / self.fft_size_in as f64,
+            chunk_size: self.chunk_size_in,
+            needed_input_size: self.fft_size_in,
+            current_buffer_fill: self.fft_size_out,
+            saved_frames: self.saved_frames,
+            frames_needed: self.chunk_size_in,
+            buffer_len: self.input_buffers.first().map(|b| b.len()).unwrap_or(0),
+            mask: self.channel_mask.clone(),
+        }
+    }
+}
+
+#[cfg(feature = "rubato_verif")]
+impl<T> FftFixedOut<T> {
+    /// Verification hook: private control state, read-only.
+    pub fn verif_state(&self) -> crate::VerifState {
+        crate::VerifState {
+            last_index: 0.0,
+            resample_ratio: self.fft_size_out as f64 / self.fft_size_in as f64,
+            target_ratio: self.fft_size_out as f64 / self.fft_size_in as f64,
+            chunk_size: self.chunk_size_out,
+            needed_input_size: self.fft_size_in,
+            current_buffer_fill: self.fft_size_out,
+            saved_frames: self.saved_frames,
+            frames_needed: self.frames_needed,
+            buffer_len: self.output_buffers.first().map(|b| b.len()).unwrap_or(0),
+            mask: self.channel_mask.clone(),
+        }
+    }
+}
+
+#[cfg(feature = "rubato_verif")]
+impl<T> FftFixedInOut<T> {
+    /// Verification hook: private control state, read-only.
+    pub fn verif_state(&self) -> crate::VerifState {
+        crate::VerifState {
+            last_index: 0.0,
+            resample_ratio: self.chunk_size_out as f64 / self.chunk_size_in as f64,
+            target_ratio: self.chunk_size_out as f64 / self.chunk_size_in as f64,
+            chunk_size: self.chunk_size_in,
+            needed_input_size: self.fft_size_in,
+            current_buffer_fill: self.chunk_size_out,
+            saved_frames: 0,
+            frames_needed: self.chunk_size_in,
+            buffer_len: self.overlaps.first().map(|b| b.len()).unwrap_or(0),
+            mask: self.channel_mask.clone(),
+        }
+    }
+}
+
 #[cfg(test)]
 mod tests {
     use crate::check_output;
